@@ -21,8 +21,17 @@ READY = True
 DRIVER = "dm_chunks"
 LEAN_MODULES = ["DaskModel.Props.C23"]
 CASE_TIMEOUT_S = 20
-LEVEL_TEXT = ""
-LEVEL_NOTE = ""
+LEVEL_TEXT = ("Lean 4 theorems over a transliteration of normalize_chunks / blockdims_from_blockshape and of the rechunk "
+              "planner kernels: normalize_sum_nonneg (whatever normalize_chunks returns is, per dimension, a non-empty tuple of "
+              "non-negative sizes adding up to the shape - no hypothesis on the spec), normalize_sum_pos (positive sizes or "
+              "exactly (0,), for int/-1/None/dict/byte-string/auto entries; explicit tuples must themselves be positive), "
+              "divide_to_width_spec, merge_homogeneous_spec. auto_chunks is abstracted to its returned tuple: its "
+              "post-condition and the byte-limit clause are validated on every real output, not proved. Rechunk: "
+              "_breakpoints/_intersect_1d/old_to_new are transliterated and diffed; the covering theorem is stated in "
+              "Props/C23.lean (see file for its current status); plan heuristics are validated stage by stage.")
+LEVEL_NOTE = ("Trusted: Lean kernel + standard axioms; the correspondence harness (auto_chunks observed through a wrapper); "
+              "NumPy getitem/concatenate on single blocks; float heuristics of auto_chunks / find_merge_rechunk are not modelled. "
+              "Known finding: with previous_chunks auto chunks may exceed the limit by array.chunk-size-tolerance (documented).")
 TECHNIQUE = "Lean 4 proof (induction over chunk lists / the breakpoint merge) + differential correspondence"
 ASSUMPTIONS = [
     "sorted(cumold + cumnew, key=itemgetter(1)) on two sorted lists = stable merge, old first on ties (validated by the _intersect_1d diff)",
